@@ -9,8 +9,9 @@ executions, all enumerated completely inside their bounds:
   hist     every operation sequence of length L over {GET, forced reload (origin serves the next version), PURGE}
            on one URL, for a few sizes
   sched    reader-during-replacement: a reader that stops reading after n bytes and later resumes, against a
-           writer whose forced reload (or PURGE + refetch) is delivered by the origin in three pieces; ALL
-           interleavings of the reader's and the writer's steps
+           writer whose forced reload (or PURGE + refetch) is delivered by the origin in three (two) pieces and
+           who then fetches another URL of the same size (re-using freed space); ALL interleavings of the
+           reader's and the writer's steps
   evict    caches sized for two objects, every sequence of length L over {GET a, GET b, GET c, RELOAD a}
 
 Oracle (C10 statement): every response that Squid marks as a hit (Cache-Status ...;hit) or that it produced
@@ -252,6 +253,7 @@ class Env:
             if conn.closed or conn.reset:
                 return False
             off += conn.send(data[off:])
+            conn.sent = b''          # Conn keeps a copy of everything sent; not needed here (and quadratic on persistent connections)
             if off >= len(data):
                 return True
             self.sq.settle(1)
@@ -292,6 +294,31 @@ class Env:
                     break
                 self.wait_a_bit()
         return httpref.parse_response(c.inbuf, method, eof=c.eof)
+
+    def drain_all(self, conns, limit=8000):
+        """Let several clients read to the end together (a stalled client can hold back the others)."""
+        idle = 0
+        patience = 400 if self.async_io else 3
+        live = [c for c in conns if c is not None]
+        for _ in range(limit):
+            self.sq.settle(1)
+            moved = self.service_origin() > 0
+            done = 0
+            for c in live:
+                if c.pump():
+                    moved = True
+                m = httpref.parse_response(c.inbuf, 'GET', eof=c.eof)
+                if (m.complete and not m.error and m.framing != 'close') or c.eof:
+                    done += 1
+            if done == len(live):
+                break
+            if moved:
+                idle = 0
+            else:
+                idle += 1
+                if idle > patience:
+                    break
+                self.wait_a_bit()
 
     def simple(self, key, op, actor='C'):
         """One whole transaction of a well-behaved client.  Returns (Msg, contacted, eof)."""
@@ -401,28 +428,39 @@ class Reader:
 
 
 class Writer:
-    """Replaces the object: forced reload (or PURGE, then a refetch) whose response the origin sends in 3 pieces."""
+    """Replaces the object: forced reload (or PURGE, then a refetch) whose response the origin sends in pieces,
+    followed by the fetch of another, equally large URL (which re-uses whatever space the replacement freed)."""
+
+    PLANS = {'reload': ['send', 'piece', 'piece', 'piece', 'filler'],
+             'purge': ['purge', 'send', 'piece', 'piece', 'filler']}
 
     def __init__(self, env, key, mode):
         self.env, self.key, self.mode = env, key, mode
+        self.plan = self.PLANS[mode]
+        self.npieces = self.plan.count('piece')
         self.i = 0
+        self.piece = 0
         self.c = None
         self.oc = None
         self.v = None
         self.purge_status = None
+        self.filler = None
 
     def step(self):
         env, key = self.env, self.key
-        env.actions += 1
-        i = self.i
+        what = self.plan[self.i]
         self.i += 1
-        if self.mode == 'purge' and i == 0:
-            m, _, _ = env.simple(key, 'P', actor='W')
-            env.actions -= 1
+        if what == 'purge':
+            m, _, _ = env.simple(key, 'P', actor='F')
             self.purge_status = m.status if m.head_complete else None
             return
-        first_send = 0 if self.mode == 'reload' else 1
-        if i == first_send:
+        if what == 'filler':
+            fk = env.new_key(key.size, tag='f')
+            m, contacted, eof = env.simple(fk, 'G', actor='F')
+            self.filler = judge(fk, m, contacted, eof)
+            return
+        env.actions += 1
+        if what == 'send':
             self.c = env.client()
             self.c.send(env.request(key, 'R' if self.mode == 'reload' else 'G', 'W'))
             for _ in range(400 if env.async_io else 6):
@@ -435,21 +473,19 @@ class Writer:
             if env.pending_w:
                 self.oc, _, _ = env.pending_w.pop(0)
             return
+        # a piece of the origin's response
+        self.piece += 1
         if self.oc is None:
-            return                       # the request never reached the origin (answered otherwise); nothing to send
-        piece = i - first_send           # 1, 2, (3)
-        npieces = 3 if self.mode == 'reload' else 2
-        if piece == 1:
+            return                       # the request never reached the origin (answered from cache); nothing to send
+        if self.piece == 1:
             key.started += 1
             self.v = key.started
-            self.wire = key.head(self.v, env.sq.now_us) + key.wire_body(self.v)
-            hl = len(key.head(self.v, env.sq.now_us))
-            if npieces == 3:
-                self.cuts = [0, hl + key.size // 3, hl + 2 * key.size // 3, len(self.wire)]
-            else:
-                self.cuts = [0, hl + key.size // 2, len(self.wire)]
-        env.send_all(self.oc.c, self.wire[self.cuts[piece - 1]:self.cuts[piece]])
-        if piece == npieces:
+            head = key.head(self.v, env.sq.now_us)
+            self.wire = head + key.wire_body(self.v)
+            hl = len(head)
+            self.cuts = [0] + [hl + key.size * k // self.npieces for k in range(1, self.npieces)] + [len(self.wire)]
+        env.send_all(self.oc.c, self.wire[self.cuts[self.piece - 1]:self.cuts[self.piece]])
+        if self.piece == self.npieces:
             key.complete.add(self.v)
         for _ in range(2):
             env.sq.settle(1)
@@ -467,7 +503,7 @@ class Writer:
 
 
 def run_sched(env, x):
-    """x = {'size', 'n', 'order': 'RWWRWW', 'w': 'reload'|'purge', 'rsteps': 2|3}"""
+    """x = {'size', 'n', 'order': 'RWWRWWW', 'w': 'reload'|'purge', 'rsteps': 2|3}"""
     key = env.new_key(x['size'])
     m0, c0, e0 = env.simple(key, 'G')
     tag0, _ = judge(key, m0, c0, e0)
@@ -475,8 +511,9 @@ def run_sched(env, x):
     W = Writer(env, key, x['w'])
     for a in x['order']:
         (R if a == 'R' else W).step()
+    env.drain_all([R.c, W.c])                 # once the schedule is over both clients read to the end, together
     W.finish()
-    R.finish()                                # both run to completion once the schedule is over
+    R.finish()
     sig, vio = ['setup:' + tag0], None
     # the reader: whether the origin was contacted on its behalf is not attributable while W is active, so only
     # Squid's own hit marker classifies it (contacted=True switches the "not contacted" inference off)
@@ -487,7 +524,8 @@ def run_sched(env, x):
     mp, cp, ep = env.simple(key, 'G')
     tagP, vP = judge(key, mp, cp, ep)
     sig.append('probe:' + tagP)
-    for who, v in (('stalled reader', vR), ('writer client', vW), ('probe after the schedule', vP)):
+    vF = W.filler[1] if W.filler else None
+    for who, v in (('stalled reader', vR), ('writer client', vW), ('probe after the schedule', vP), ('filler URL', vF)):
         if v and not vio:
             vio = '%s in schedule %s (reader stops after %d bytes, writer = %s, %d-byte object, store %s): %s' % (
                 who, x['order'], x['n'], x['w'], x['size'], env.store, v)
@@ -529,15 +567,15 @@ def space(tier, store):
                           for o in itertools.product('GRP', repeat=5)]
     # -- sched
     sch = []
-    for size in ((60000, 200000) if quick else (60000, 200000, 1000000)):
+    for size in ((60000, 200000) if quick else (60000, 200000, 500000)):
         for n in ((0, 2000, size // 2) if quick else (0, 300, 2000, size // 2, size - 1000)):
-            for order in interleavings(2, 4):
+            for order in interleavings(2, 5):
                 sch.append({'size': size, 'n': n, 'order': order, 'w': 'reload', 'rsteps': 2})
             if not quick:
-                for order in interleavings(2, 4):
+                for order in interleavings(2, 5):
                     sch.append({'size': size, 'n': n, 'order': order, 'w': 'purge', 'rsteps': 2})
                 if n:
-                    for order in interleavings(3, 4):
+                    for order in interleavings(3, 5):
                         sch.append({'size': size, 'n': n, 'order': order, 'w': 'reload', 'rsteps': 3})
     parts['sched'] = sch
     # -- evict
@@ -753,7 +791,7 @@ def run(ctx):
     obs += ['unreproducible (async store): ' + u for u in unrep]
     # a crash while serving a hit is not "serving a wrong hit"; C10 reports it as an observation
     bound = {'history_length': 5 if ctx.quick else 6, 'eviction_history_length': 4 if ctx.quick else 5,
-             'reader_writer_interleavings': 'all 15 orders of 2 reader x 4 writer steps' + ('' if ctx.quick else ' and all 35 of 3 x 4'),
+             'reader_writer_interleavings': 'all 21 orders of 2 reader x 5 writer steps' + ('' if ctx.quick else ' and all 56 of 3 x 5'),
              'stores': sorted(set(u['store'] for u in units))}
     cov = {'states': len(states), 'transitions': tot['transitions'], 'traces_validated_against_impl': tot['executions'],
            'executions_planned': planned, 'bound_completed': bound if complete else 'cut by the deadline, see units_cut',
